@@ -154,32 +154,56 @@ def mut_wrong_type(e):
     return None
 
 
+CHUNK = 64
+
+
 def run_profile(ctx, binp, profile, hist, steps, extra_env=None):
-    env = {"VF_PROFILE": profile, "VF_HIST": hist, "VF_STEPS": steps}
-    if extra_env:
-        env.update(extra_env)
-    test = "TestVF_Core" if profile in ("ns", "data") else "TestVF_Core2"
-    if profile in ("own", "ro", "names"):
-        env["VF_CALLS"] = "1"
-    ctx.harness_ok(binp, test, env, timeout=1200)
-    trace = os.path.join(ctx.scratch, "core_%s.ndjson" % profile)
-    summ = json.load(open(os.path.join(ctx.scratch, "core_%s.summary.json" % profile)))
-    res = validate(ctx, trace, profile)
-    ctx.cov["traces_validated_against_impl"] += summ["histories"]
-    ctx.cov["evaluations"] += res["stats"]["req"]
-    ctx.cov["distinct_nontrivial"] += summ["nontrivial"]
-    ctx.cov.setdefault("trace_stats", {})[profile] = res["stats"]
-    for s in summ.get("samples", [])[:1]:
-        ctx.sample({"profile": profile, "history": s})
-    # one recorded request verbatim (without the bulky tree) as a sample
-    with open(trace) as f:
-        for i, ln in enumerate(f):
-            if i == 3:
-                e = json.loads(ln)
-                e.pop("calls", None)
-                ctx.sample({"profile": profile, "recorded_line": e})
-                break
-    return trace, res, summ
+    """Run the driver for one profile and validate the recorded histories. Large runs are split
+    into chunks of CHUNK histories (own seed each) so that one TLC trace validation stays small;
+    returns (list of (trace, res), merged stats)."""
+    chunks = max(1, (hist + CHUNK - 1) // CHUNK)
+    out = []
+    for ci in range(chunks):
+        n = min(CHUNK, hist - ci * CHUNK)
+        env = {"VF_PROFILE": profile, "VF_HIST": n, "VF_STEPS": steps, "VERIF_SEED": ctx.seed + 7919 * ci}
+        if extra_env:
+            env.update(extra_env)
+        test = "TestVF_Core" if profile in ("ns", "data") else "TestVF_Core2"
+        if profile in ("own", "ro", "names"):
+            env["VF_CALLS"] = "1"
+        ctx.harness_ok(binp, test, env, timeout=1200)
+        trace = os.path.join(ctx.scratch, "core_%s.ndjson" % profile)
+        if chunks > 1:
+            t2 = os.path.join(ctx.scratch, "core_%s_%d.ndjson" % (profile, ci))
+            os.rename(trace, t2)
+            trace = t2
+        summ = json.load(open(os.path.join(ctx.scratch, "core_%s.summary.json" % profile)))
+        res = validate(ctx, trace, "%s_%d" % (profile, ci) if chunks > 1 else profile)
+        ctx.cov["traces_validated_against_impl"] += summ["histories"]
+        ctx.cov["evaluations"] += res["stats"]["req"]
+        ctx.cov["distinct_nontrivial"] += summ["nontrivial"]
+        st = ctx.cov.setdefault("trace_stats", {}).setdefault(profile, {})
+        for k, v in res["stats"].items():
+            st[k] = st.get(k, 0) + v
+        if ci == 0:
+            for s in summ.get("samples", [])[:1]:
+                ctx.sample({"profile": profile, "history": s})
+            with open(trace) as f:
+                for i, ln in enumerate(f):
+                    if i == 3:
+                        e = json.loads(ln)
+                        e.pop("calls", None)
+                        ctx.sample({"profile": profile, "recorded_line": e})
+                        break
+        out.append((trace, res))
+        if chunks > 1 and ci > 0 and not res["bad"]:
+            os.unlink(trace)      # keep scratch small; chunk 0 is kept for the binding demonstration
+    return out
+
+
+def report_all(ctx, pid, runs, label, props=None):
+    for trace, res in runs:
+        report(ctx, pid, res, trace, label, props)
 
 
 def replay(ctx, pid, props=None):
